@@ -155,6 +155,8 @@ structure Behav where
   common : Option (Option Id) := none   -- override of the getHighestCommonBlock answer
   force : Option Mode := none       -- run that synchroniser directly
   finPeak : Nat := 0                -- finalized height implied by the applicable part of the served chain
+  target : Option Nat := none       -- the peer announced its block of that height (its tip is above)
+  tmhp : Nat := 0                   -- maxHeightPrevoted of the announced block
 
 def parseBehav (s : Scn) (w : List String) : Behav :=
   { cap := kv w "cap", stop := kv w "stop", badStatic := kv w "badstatic", badExec := kv w "badexec",
@@ -163,6 +165,7 @@ def parseBehav (s : Scn) (w : List String) : Behav :=
       | some t => (parseTok s t).map some
       | none => none,
     finPeak := (kv w "finpeak").getD 0,
+    target := kv w "target", tmhp := (kv w "tmhp").getD 0,
     force := match kvs w "force" with
       | some "fast" => some .fast
       | some "block" => some .block
@@ -177,7 +180,9 @@ def servedChain (s : Scn) (b : Behav) : List (Blk Id) :=
 def mkPeer (s : Scn) (b : Behav) : Peer Id :=
   let c := servedChain s b
   let hp := honest c s.mhpP
-  { last := hp.last,
+  { last := match b.target with
+      | some t => (c[t]?).map (fun x => (x, b.tmhp))   -- the block it announced; the rest from its longer chain
+      | none => hp.last,
     common := match b.common with
       | some ans => fun _ => some ans
       | none => hp.common,
@@ -199,7 +204,7 @@ def modeStr : Mode → String
 def runSync (s : Scn) (b : Behav) : String :=
   let q := s.chainQ
   let c := servedChain s b
-  match c.getLast? with
+  match (match b.target with | some t => (if t = 0 then none else c[t]?) | none => c.getLast?) with
   | none => "bad-op"
   | some target =>
     let mode := match b.force with
@@ -208,7 +213,8 @@ def runSync (s : Scn) (b : Behav) : String :=
     let out : Out Id := if b.force.isNone && !target.ok then ⟨q, [], false, some .invalidBlock⟩ else match mode with
       | .fast => fastSync (applies b) (fun _ => b.finPeak) s.n s.finQ q target (mkPeer s b)
       | .block => blockSync (applies b) s.n s.finQ s.mhpQ q
-          { peer := 0, height := target.height, mhp := s.mhpP, id := target.id } (mkPeer s b)
+          { peer := 0, height := target.height, mhp := (if b.target.isSome then b.tmhp else s.mhpP), id := target.id }
+          (mkPeer s b)
       | .none => ⟨q, [], false, none⟩
     let tip := match out.chain.getLast? with | some t => tokOf s t.id | none => "-"
     "mode=" ++ modeStr mode ++ " err=" ++ (if out.err.isSome then "1" else "0") ++ " tip=" ++ tip
@@ -258,6 +264,22 @@ def step (s : Scn) (w : List String) : Scn × String :=
       | some l => bestStr l
       | none => "bad-op")
   | "sync" :: r => (s, runSync s (parseBehav s r))
+  | ["dl", st, sh, et, eh] =>
+    (s, match parseTok s st, sh.toNat?, parseTok s et, eh.toNat? with
+      | some sid, some sh, some eid, some eh =>
+        let d := download (honest s.chainP s.mhpP).segment sid sh eid eh
+        let first := match d.1.head? with | some b => tokOf s b.id | none => "-"
+        let last := match d.1.getLast? with | some b => tokOf s b.id | none => "-"
+        "dl n=" ++ toString d.1.length ++ " first=" ++ first ++ " last=" ++ last ++ " done=" ++ (if d.2 then "1" else "0")
+      | _, _, _, _ => "bad-op")
+  | "cs" :: r =>
+    (s, match kv r "fin", kv r "n" with
+      | some fin, some n =>
+        if n < 1 ∨ fin > s.lenQ then "bad-op" else
+        match commonSearch n fin s.chainQ (honest s.chainP s.mhpP) 3 (getCommonBlockStartSearchHeight s.lenQ n) with
+        | .ok ch => "common " ++ tokOf s (s.qid ch)
+        | .error _ => "err"
+      | _, _ => "bad-op")
   | _ => (s, "bad-op")
 
 def main : IO Unit := Driver.run ({} : Scn) step
